@@ -136,6 +136,15 @@ CLAIMED = {
         "DESIGN.md 4 C17",
         "Style orders run in short-lived child interpreters (vf/style_child.py) importing clikit from the tree under test.",
     ),
+    "C18": (
+        "bounded-exhaustive answer scripts x choice lists x modes against a reference dialogue model (value-then-index validation, attempt budget, end of input) with read / prompt-write budgets; enumerated confirmation and non-interactive tables; Hypothesis choice lists",
+        "All answer scripts up to 3 (thorough 4) lines over a 15-entry adversarial alphabet for 4 choice lists x single/multi-select x "
+        "3 defaults x 4 attempt limits, each ending in end of input: returned value / error, number of lines read and number of errors "
+        "printed equal the reference dialogue model; membership; index/value interchangeability; confirmation truth table; "
+        "non-interactive questions return the default with zero reads and zero bytes written.",
+        "DESIGN.md 4 C18",
+        "Question._has_stty_available is patched to False from outside (no stty reachable); termination by read / write budgets.",
+    ),
     "C20": (
         "Hypothesis-generated source files and exceptions rendered by ExceptionTrace, validity predicates on the rendered text (message, numbering, marker, verbatim source lines against the generated source, ignore filter); corpus sweep of the highlighter",
         "Exceptions raised from generated on-disk sources (filler from an adversarial line pool, CRLF, missing trailing newline), exec'd and "
